@@ -13,7 +13,7 @@
  *     scopycols_opt a b n v.. | sfilled a b n v.. m w.. | s2d a b | d2s a b
  *   dense
  *     dalloc a R C | dfree a | dget a r c | dset a r c val | dflip a r c | dclear a
- *     dcopy a b | dcopyrows a b n v.. | dcopycols a b n v.. | dxor a from to
+ *     dcopy a b | dcopyrows a b n v.. | dcopycols a b n v.. | dxor a from to | dload a n rows.. cols..
  *     drw a r | drwi a r nb | dcw a c | dempty a r
  *   popcount helpers (words are given as lists of bit positions)
  *     hw32 n b.. | hw8 n b.. | hw64 n b.. | hwarr size n b..
@@ -47,6 +47,8 @@
 #include <sys/wait.h>
 
 #include "lib_common/linear_binary_codes_utils/of_linear_binary_code.h"
+
+UINT8 of_hweight8_table(UINT8 w);   /* exported by of_hamming_weight.c, missing from its header */
 
 /* ------------------------------------------------------------------ ledger */
 
@@ -432,6 +434,17 @@ static void run_op(void)
 		begin_op(&A);
 		LIB_ENTER(DOWNER(A.a)); ret = (long)of_mod2dense_set(DN[A.a], (UINT32)A.r, (UINT32)A.c, (UINT32)A.b); LIB_LEAVE();
 		jb_printf(",\"ret\":%ld", ret); proj_dense("da", A.a); end_op();
+	} else if (!strcmp(o, "dload")) {
+		/* harness-level bulk load of an INPUT matrix: clear, then set every listed position (v = rows, w = columns) */
+		A.a = T[0]; A.nv = T[1]; A.v = &T[2];
+		if (!dense_ok(A.a) || A.nv < 0 || 2 + 2 * A.nv > NT) { proto_error("args"); return; }
+		A.nw = A.nv; A.w = &T[2 + A.nv];
+		begin_op(&A);
+		LIB_ENTER(DOWNER(A.a));
+		of_mod2dense_clear(DN[A.a]);
+		for (long i = 0; i < A.nv; i++) of_mod2dense_set(DN[A.a], (UINT32)A.v[i], (UINT32)A.w[i], 1);
+		LIB_LEAVE();
+		jb_printf(",\"ret\":0"); proj_dense("da", A.a); end_op();
 	} else if (!strcmp(o, "dclear")) {
 		A.a = T[0];
 		if (!dense_ok(A.a)) { proto_error("slot"); return; }
@@ -526,8 +539,14 @@ static void do_solve(void)
 	LIB_LEAVE();
 	void **ct = __real_calloc(p, sizeof(void *));
 	void **vt = __real_calloc(q, sizeof(void *));
+	long nnull = 0;
+	{	/* pre-scan: number of NULL constant terms */
+		int kk = 4;
+		for (long i = 0; i < p && kk < NT; i++) kk += 1 + (int)T[kk];
+		for (long i = 0; i < p && kk + 1 < NT + 1; i++) { if (T[kk]) nnull++; kk += 2 + (int)T[kk + 1]; }
+	}
 	g_jn = 0;
-	jb_printf("{\"e\":\"Op\",\"x\":%ld,\"op\":\"solve\",\"a\":%ld,\"b\":0,\"r\":%ld,\"c\":%ld,\"v\":[%ld],\"w\":[],\"M\":[", g_exec, mode, p, q, L);
+	jb_printf("{\"e\":\"Op\",\"x\":%ld,\"op\":\"solve\",\"a\":%ld,\"b\":%ld,\"r\":%ld,\"c\":%ld,\"v\":[%ld],\"w\":[],\"M\":[", g_exec, mode, nnull, p, q, L);
 	for (long i = 0; i < p; i++) {
 		if (k >= NT) { proto_error("args"); return; }
 		long n = T[k++];
@@ -557,7 +576,7 @@ static void do_solve(void)
 	for (long i = 0, n = 0; i < p; i++) if (!ct[i]) jb_printf(n++ ? ",%ld" : "%ld", i);
 	jb_printf("]");
 	(void)frag;
-	snprintf(g_sh->cur, sizeof g_sh->cur, "\"op\":\"solve\",\"a\":%ld,\"b\":0,\"r\":%ld,\"c\":%ld,\"v\":[%ld],\"w\":[]", mode, p, q, L);
+	snprintf(g_sh->cur, sizeof g_sh->cur, "\"op\":\"solve\",\"a\":%ld,\"b\":%ld,\"r\":%ld,\"c\":%ld,\"v\":[%ld],\"w\":[]", mode, nnull, p, q, L);
 
 	of_linear_binary_code_cb_t cb;
 	memset(&cb, 0, sizeof cb);
